@@ -18,7 +18,8 @@ ALL_READS = ['data', 'value', 'getslice', 'iter', 'iter_data', 'pairwise',
              'nonzero', 'sum', 'nnz', 'density', 'minmax', 'nonzero_counts',
              'reduce', 'stats', 'dataframe', 'md_dataframe', 'eq', 'text']
 ALL_PERTURB = ['flip', 'nnz', 'repr', 'eqself', 'iterall', 'h5', 'sortinv',
-               'tt', 'copy', 'filterall', 'identity', 'rebuild', 'fulldepth']
+               'tt', 'copy', 'filterall', 'identity', 'rebuild', 'fulldepth',
+               'groupmd']
 ALL_SPAWN = ['iter', 'iter_data', 'pairwise', 'nonzero', 'partition']
 
 BASE_KIND_W = {'op': 10.0, 'read': 5.0, 'perturb': 3.0, 'spawn': 1.2,
@@ -43,7 +44,7 @@ def draw_cfg(rng, profile, tier):
     big = tier == 'thorough' and rng.random() < 0.35
     cfg = {
         'vfam': rng.choice(p.get('vfams', ['exact', 'exact', 'counts', 'wild',
-                                            'small3', 'pos'])),
+                                            'small3', 'pos', 'tiny'])),
         'alpha': rng.choice(p.get('alphas', ['ascii', 'ascii', 'num', 'punct',
                                              'slash', 'unicode', 'long',
                                              'natsort', 'ws'])),
@@ -137,7 +138,7 @@ class Gen:
         if rng.random() < 0.5:
             rng.shuffle(is_)
         ncat = len(V.MD_CATS)
-        allowed = cfg.get('md_cats') or list(range(V.N_BASIC_CATS))
+        allowed = cfg.get('md_cats') or list(V.BASIC_CATS)
 
         def mdmask():
             if rng.random() >= cfg['md_rate']:
@@ -259,7 +260,7 @@ class Gen:
             mutating_inplace = bool(ev['inp'])
         elif name == 'add_metadata':
             ncat = len(V.MD_CATS)
-            allowed = cfg.get('md_cats') or list(range(V.N_BASIC_CATS))
+            allowed = cfg.get('md_cats') or list(V.BASIC_CATS)
             km = 0
             for c in rng.sample(allowed, min(rng.randint(1, 2), len(allowed))):
                 km |= 1 << c
@@ -292,7 +293,8 @@ class Gen:
                                        rng.randrange(10 ** 6),
                                        rng.randrange(2 ** 32)]),
                       nadj=rng.randrange(3) if rng.random() < 0.3 else 0,
-                      flagform=rng.choice([0, 0, 1, 2]))
+                      flagform=rng.choice([0, 0, 1, 2]),
+                      gen=rng.choice([0, 0, 0, 0, 1, 2]))
         elif name == 'collapse':
             ev.update(fam=rng.randrange(4), salt=rng.randrange(100),
                       norm=rng.randrange(2), mgs=rng.choice([0, 0, 0, 1, 2]),
@@ -347,6 +349,9 @@ class Gen:
             ev['inp'] = 0
             if name in ('add_metadata', 'del_metadata'):
                 return self.ev_read(w)
+        if 'inp' in ev:
+            # the flag as bool / numpy bool / int
+            ev['iform'] = rng.choice([0, 0, 0, 1, 2])
         return ev
 
     def ev_read(self, w):
